@@ -463,6 +463,29 @@ def ev_canon(entries, sep, oos=None):
             rel = text_rel(c, c2)
             out.append(Fail("canon-fixed-point", "str-of-str-differs", "%s: %s" % (which, rel[1]),
                             {"canonical": c, "str(YAMLPath(canonical))": c2}, c))
+        if nsep != sep and not d:
+            # the history "parse, switch the notation, then compare / extend": q still has segments P0
+            # (checked just above through its canonical text), so it equals the text it was parsed from
+            # and a path parsed from that text, and q + <key> ends in exactly that key
+            try:
+                eqs = {"q == text": q == text, "text == q": text == q,
+                       "q == YAMLPath(text)": q == YAMLPath(text), "YAMLPath(text) == q": YAMLPath(text) == q}
+                bad = sorted(k for k, v in eqs.items() if v is not True)
+                if bad:
+                    out.append(Fail("equality", "false-after-notation-switch", ", ".join(bad),
+                                    {"text": text, "switched-to": nsep, "results": {k: repr(v) for k, v in eqs.items()}},
+                                    "True (segments equal: %r)" % (P0,)))
+                ext = q + "xyz"
+                Oe = observe(ext)
+                de = diff(list(P0) + [("key", "xyz")], Oe)
+                if de:
+                    out.append(Fail("append-pop", "plus-after-notation-switch", de[2],
+                                    {"text": text, "switched-to": nsep, "segments(q + 'xyz')": Oe},
+                                    list(P0) + [("key", "xyz")]))
+            except _LIB_ERRORS as ex:
+                k, dt = _exc_class(ex)
+                out.append(Fail("equality", k, "after notation switch: %s" % dt,
+                                "%s: %s" % (type(ex).__name__, ex), P0))
     # one Fail per (clause, kind): same-notation and other-notation failures of one kind are one thing
     seen = set()
     uniq = []
